@@ -398,10 +398,32 @@ def sweep_cases(tier_, after=False):
             extra.append(q)
     return projs + extra
 
+def random_large_graphs(rng, n, after=False):
+    """random digraphs on 5-8 files (mostly acyclic) with random controlled schedules (sampled, not enumerated)"""
+    out = []
+    for k in range(n):
+        r = rng.fork("G%d" % k)
+        nf = 5 + r.below(4)
+        names = [("/" if i % 3 else "/sub/") + "f%d" % i + [".txt.txtpp", ".txtpp.md", ".txtpp"][i % 3] for i in range(nf)]
+        perm = r.shuffle(range(nf))
+        edges = [(perm[i], perm[j]) for i in range(nf) for j in range(i + 1, nf) if r.chance(1, 4)]
+        if r.chance(1, 6): edges.append((perm[nf - 1], perm[r.below(nf)]))     # sometimes a back edge: a cycle
+        inputs = sorted(set(r.below(nf) for _ in range(1 + r.below(3))))
+        for v in range(3):
+            q = digraph_project("G%d.%d" % (k, v), names, edges, inputs, after=after)
+            q.sched = [r.below(6) for _ in range(3 * nf + 4)]
+            out.append(q)
+    return out
+
 def run_sweep(tier_, after=False, cap=None):
     projs = sweep_cases(tier_, after)
     complete_oracles(projs)
     runs = enumerate_schedules(projs, max_per=cap)
+    if tier_ != "quick":
+        big = random_large_graphs(Rng(seed()).fork("big%s" % after), 1200, after)
+        complete_oracles(big)
+        bo = [parse_obs(x) for x in run_impl([q.text() for q in big])]
+        runs = runs + [(-1, q, o) for q, o in zip(big, bo)]
     mouts = [parse_obs(x) for x in run_model([q.text() for (_, q, _) in runs])]
     return projs, runs, mouts
 
@@ -417,7 +439,8 @@ def sweep_common_cov(projs, runs, mouts, tier_):
         "rule": "every digraph with self-loops on <= 3 files and every acyclic digraph on 4 files (%s), up to relabelling together with the set of requested inputs, "
                 "x every completion order (breadth-first over the scheduling controller's choice points, no cap); stale outputs planted at every output path; "
                 "non-trivial/distinct = distinct (graph class, task trace)" % ("input sets of size 1, 2 and 4 in the quick tier" if tier_ == "quick" else "all input sets"),
-        "exhaustive": True, "graph_input_classes": len(projs), "schedules_run": len(runs), "shape_distribution": dict(shapes),
+        "exhaustive": True, "exhaustive_bound": "<= 3 files with cycles, 4 files acyclic; larger graphs (thorough) are sampled",
+        "graph_input_classes": len(projs), "schedules_run": len(runs), "shape_distribution": dict(shapes),
         "schedule_length_max": max(len(trace_list(oi)) for (_, _, oi) in runs),
         "traces_validated_against_impl": len(runs),
         "samples": [{"edges": q.edges, "inputs": q.input_idx, "schedule": q.sched, "trace": trace_decode(runs[len(runs) // 2][2]),
@@ -559,7 +582,7 @@ def dist_of(projs):
 
 def check_C01(tier_, sd, consts_ok, consts_detail):
     rng = Rng(sd).fork("C01")
-    n = 700 if tier_ == "quick" else 6000
+    n = 700 if tier_ == "quick" else 30000
     projs = gen_batch(rng, n, modes=(0,))
     oi, om = both(projs)
     violations = []; verd = collections.Counter(); nontriv = set()
@@ -621,7 +644,7 @@ def fixture_projects():
 
 def check_C13(tier_, sd, consts_ok, consts_detail):
     rng = Rng(sd).fork("C13")
-    n = 600 if tier_ == "quick" else 5000
+    n = 600 if tier_ == "quick" else 20000
     # per source, fixed environment: no include of another generated output (whose own final line ending the option changes)
     base = gen_batch(rng, n, modes=(0,), allow_errors=False, edges="none")
     on, off = [], []
@@ -708,7 +731,7 @@ def le_uniform(le, data):
 
 def check_C12(tier_, sd, consts_ok, consts_detail):
     rng = Rng(sd).fork("C12")
-    n = 700 if tier_ == "quick" else 6000
+    n = 700 if tier_ == "quick" else 25000
     projs = gen_batch(rng, n, modes=(0,), allow_errors=False)
     # documented domain D1: CR only immediately before LF, in every input
     for p in projs:
@@ -767,7 +790,7 @@ def check_C12(tier_, sd, consts_ok, consts_detail):
 
 def check_C16(tier_, sd, consts_ok, consts_detail):
     rng = Rng(sd).fork("C16")
-    n = 500 if tier_ == "quick" else 4000
+    n = 500 if tier_ == "quick" else 20000
     words = gen.WORDS + gen.LOOKALIKE + ["", " ", "\tx", "TXTPP#", "TXTPP#run", "-TXTPP#write x", "// TXTPP#include f", "TAG1", "é　x", "a\tb  "]
     # (a) sources without any directive line (look-alikes included); classify with the model
     texts = []
@@ -927,7 +950,7 @@ def tamper(rng, data):
 
 def check_C06(tier_, sd, consts_ok, consts_detail):
     rng = Rng(sd).fork("C06")
-    built, ngen = built_trees(rng, 260 if tier_ == "quick" else 2000, "C06")
+    built, ngen = built_trees(rng, 260 if tier_ == "quick" else 5000, "C06")
     steps = []; meta = []
     for k, (p, a) in enumerate(built):
         outs = [gen.out_name(s) for s in p.srcs]
@@ -999,7 +1022,7 @@ def escaping_temp_projects(rng, n, tag):
 
 def check_C07(tier_, sd, consts_ok, consts_detail):
     rng = Rng(sd).fork("C07")
-    n = 350 if tier_ == "quick" else 3000
+    n = 350 if tier_ == "quick" else 12000
     # sources may contain erroneous directives: clean must still succeed; build may fail (then only "never runs, removes only generated" is checked)
     projs = gen_batch(rng, n, modes=(0,), allow_errors=True, markers=True)
     for p in projs: p.inputs = ["."]; p.recursive = True
@@ -1060,9 +1083,51 @@ def prestates(rng, p, a, count):
         out.append(q)
     return out
 
+def crash_histories(rng, n):
+    """the real binary is killed (SIGKILL) at a random moment of a build; building again must give exactly the tree of an
+    uninterrupted build. Supporting evidence for the crash clause (the theorems are stale_outputs_irrelevant / build_pass_ignores_old_output)."""
+    import tempfile, signal
+    bad = []; killed = 0; done_before_kill = 0
+    d = tempfile.mkdtemp(prefix="vp-c08k-", dir=os.environ.get("VP_TMP", "/dev/shm"))
+    try:
+        def make(root, r):
+            os.makedirs(os.path.join(root, "sub"))
+            big = "".join("line %05d é %s\n" % (i, "x" * (i % 37)) for i in range(3000))
+            open(os.path.join(root, "inc.txt"), "w").write(big)
+            open(os.path.join(root, "a.txt.txtpp"), "w").write("head é\n-TXTPP#include sub/b.md\n=TXTPP#temp a.tmp\n=" + "é" * 50 + "\n\n-TXTPP#include inc.txt\n+TXTPP#run sleep 0.0%d; printf 'done\\n'\ntail\n" % r.below(9))
+            open(os.path.join(root, "sub", "b.txtpp.md"), "w").write("b-top\n-TXTPP#include ../inc.txt\n=TXTPP#include c\nb-bot\n")
+            open(os.path.join(root, "sub", "c.txtpp"), "w").write("c é\n-TXTPP#run sleep 0.0%d; printf 'c\\n'\n" % r.below(9) + "".join("c line %d\n" % i for i in range(2000)))
+        def snap(root):
+            out = {}
+            for dp, dn, fn in os.walk(root):
+                for f in fn:
+                    q = os.path.join(dp, f); out[os.path.relpath(q, root)] = open(q, "rb").read()
+            return out
+        ref = os.path.join(d, "ref"); make(ref, Rng(1))
+        rc = subprocess.run([CLI, "-q", "-r", "."], cwd=ref, stdout=subprocess.DEVNULL, stderr=subprocess.DEVNULL).returncode
+        refsnap = snap(ref)
+        for k in range(n):
+            r = rng.fork("k%d" % k)
+            root = os.path.join(d, "k%d" % k); make(root, Rng(1))
+            p = subprocess.Popen([CLI, "-q", "-r", "-j", str(1 + r.below(4)), "."], cwd=root, stdout=subprocess.DEVNULL, stderr=subprocess.DEVNULL)
+            time.sleep(r.below(60) / 1000.0)
+            if p.poll() is None:
+                p.send_signal(signal.SIGKILL); killed += 1
+            else: done_before_kill += 1
+            p.wait()
+            rc2 = subprocess.run([CLI, "-q", "-r", "."] if k % 3 else [CLI, "-q", "-r", "-N", "."], cwd=root, stdout=subprocess.DEVNULL, stderr=subprocess.DEVNULL).returncode
+            s2 = snap(root)
+            if rc2 != rc or s2 != refsnap:
+                diff = sorted(f for f in set(s2) | set(refsnap) if s2.get(f) != refsnap.get(f))
+                bad.append({"kill_after_ms": "random", "rebuild_exit": rc2, "reference_exit": rc, "differing_files": diff[:5]})
+            shutil.rmtree(root, ignore_errors=True)
+    finally:
+        shutil.rmtree(d, ignore_errors=True)
+    return killed, done_before_kill, bad
+
 def check_C08(tier_, sd, consts_ok, consts_detail):
     rng = Rng(sd).fork("C08")
-    built, ngen = built_trees(rng, 200 if tier_ == "quick" else 1500, "C08", allow_errors=True)
+    built, ngen = built_trees(rng, 200 if tier_ == "quick" else 5000, "C08", allow_errors=True)
     # also projects whose build FAILS: the verdict must not depend on leftovers either
     failing = gen_batch(rng.fork("f"), 80 if tier_ == "quick" else 600, modes=(0,), allow_errors=True)
     for p in failing: p.inputs = ["."]; p.recursive = True
@@ -1091,9 +1156,15 @@ def check_C08(tier_, sd, consts_ok, consts_detail):
             nontriv.add((k, tuple(q.what)))
         if (a["verdict"], a["F"] if a["verdict"] == "ok" else None) != (b["verdict"], b["F"] if b["verdict"] == "ok" else None) and len(violations) < 5:
             violations.append(proj_violation("C08", "differs from the model", q, a, b, found=False))
-    cov = {"evaluations": len(steps) + ngen + len(failing), "distinct_nontrivial": len(nontriv),
+    killed, early, kbad = crash_histories(rng.fork("kill"), 25 if tier_ == "quick" else 400)
+    for b in kbad[:3]:
+        violations.append({"found": True, "replay": {"property": "C08", "what": "a build interrupted by SIGKILL was not repaired by building again", "detail": b,
+                           "how": "tools/checks.py crash_histories: txtpp -q -r . killed after 0-60 ms, then txtpp -q -r . (or -N); tree compared with an uninterrupted build"}})
+    cov = {"evaluations": len(steps) + ngen + len(failing) + killed + early, "distinct_nontrivial": len(nontriv),
+           "sigkill_histories": {"killed_mid_build": killed, "finished_before_the_kill": early, "not_repaired": len(kbad)},
            "rule": "for generated projects (successful and failing) the build / needed-build is repeated from pre-states with, at every generated path independently: absent, exact content, a proper prefix cut at a random byte, extended content, "
                    "empty, stale text, non-UTF-8 bytes, half a multi-byte character, 300 bytes; and from the built tree itself; verdict and (on success) the whole tree must equal the build from the clean tree; "
+                   "plus SIGKILL histories on the real binary (killed 0-60 ms into a build with 1-4 threads, then build or needed-build again, tree compared with an uninterrupted build); "
                    "distinct_nontrivial = distinct (project, pre-state shape)",
            "projects": len(base), "prestate_kinds": dict(kinds), "samples": [steps[0].what, steps[1].what]}
     xcheck(cov, violations, "C08", steps, om)
@@ -1101,7 +1172,7 @@ def check_C08(tier_, sd, consts_ok, consts_detail):
 
 def check_C09(tier_, sd, consts_ok, consts_detail):
     rng = Rng(sd).fork("C09")
-    built, ngen = built_trees(rng, 220 if tier_ == "quick" else 1800, "C09")
+    built, ngen = built_trees(rng, 220 if tier_ == "quick" else 4000, "C09")
     steps = []; meta = []
     for k, (p, a) in enumerate(built):
         r = rng.fork("s%d" % k)
@@ -1155,7 +1226,7 @@ DECOYS = [("/decoy.txt", b"decoy\n"), ("/a.txt.bak", b"bak\n"), ("/sub/txtpp", b
 
 def check_C10(tier_, sd, consts_ok, consts_detail):
     rng = Rng(sd).fork("C10")
-    n = 500 if tier_ == "quick" else 4000
+    n = 500 if tier_ == "quick" else 20000
     projs = gen_batch(rng, n, modes=(0, 1, 2, 3), allow_errors=True)
     esc = escaping_temp_projects(rng, 40 if tier_ == "quick" else 300, "esc")
     for k, p in enumerate(esc): p.mode = k % 4
@@ -1238,7 +1309,7 @@ def check_C11(tier_, sd, consts_ok, consts_detail):
                 o = run_impl(["N " + hx(src)])[0].split(" ")
                 if o[1] != "true" or o[2] == "-" or unhx(o[2]).decode() != exp: shape_bad.append((src, exp, o))
     # (2) trees and input lists
-    n = 500 if tier_ == "quick" else 4000
+    n = 500 if tier_ == "quick" else 20000
     projs = []
     for k in range(n):
         r = rng.fork("t%d" % k)
@@ -1426,7 +1497,7 @@ def rand_bytes_source(r):
 
 def check_C18(tier_, sd, consts_ok, consts_detail):
     rng = Rng(sd).fork("C18")
-    n = 1500 if tier_ == "quick" else 15000
+    n = 1500 if tier_ == "quick" else 40000
     projs = []
     for k in range(n):
         r = rng.fork("r%d" % k)
@@ -1621,3 +1692,4 @@ def check_C04(tier_, sd, consts_ok, consts_detail):
     xcheck(cov, violations, "C04", projs, om)
     return {"coverage": cov, "violations": violations}
 check_C04.needs_cli = True
+check_C08.needs_cli = True
